@@ -5,6 +5,8 @@ import (
 	"sort"
 	"strings"
 
+	"github.com/brimdata/super/compiler/ast/dag"
+
 	zed "github.com/brimdata/super"
 	"github.com/brimdata/super/runtime/sam/expr"
 	"github.com/brimdata/super/zcode"
@@ -127,4 +129,76 @@ func AllOnlyNestedFieldName(missing []zed.Value, terms []string) bool {
 		}
 	}
 	return true
+}
+
+type falseCmp struct {
+	path []string
+	in   bool // `false in path` rather than `path == false`
+}
+
+// falseComparisons returns the comparisons `P == false` and `false in P` of a filter expression.
+func falseComparisons(e dag.Expr, out *[]falseCmp) {
+	switch e := e.(type) {
+	case *dag.BinaryExpr:
+		if this, ok := e.LHS.(*dag.This); ok && e.Op == "==" {
+			if lit, ok := e.RHS.(*dag.Literal); ok && lit.Value == "false" {
+				*out = append(*out, falseCmp{path: this.Path})
+			}
+		}
+		if this, ok := e.RHS.(*dag.This); ok && e.Op == "in" {
+			if lit, ok := e.LHS.(*dag.Literal); ok && lit.Value == "false" {
+				*out = append(*out, falseCmp{path: this.Path, in: true})
+			}
+		}
+		falseComparisons(e.LHS, out)
+		falseComparisons(e.RHS, out)
+	case *dag.UnaryExpr:
+		falseComparisons(e.Operand, out)
+	}
+}
+
+func holdsNullBool(v zed.Value) bool {
+	found := false
+	v.Walk(func(typ zed.Type, body zcode.Bytes) error {
+		if body == nil && zed.TypeUnder(typ) == zed.TypeBool {
+			found = true
+		}
+		return nil
+	})
+	return found
+}
+
+// BufferFilterLossClass names the known class that explains why the ZNG
+// scanner lost the values `lost` under filter, or "".
+func BufferFilterLossClass(filter dag.Expr, lost []zed.Value) string {
+	if len(lost) == 0 || filter == nil {
+		return ""
+	}
+	b, _ := json.Marshal(filter)
+	if AllOnlyNestedFieldName(lost, SearchTerms(string(b))) {
+		return "search-fieldname-inside-container"
+	}
+	var cmps []falseCmp
+	falseComparisons(filter, &cmps)
+	if len(cmps) > 0 {
+		all := true
+		for _, v := range lost {
+			hit := false
+			for _, c := range cmps {
+				// (a null record makes its fields null as well)
+				f := expr.NewDottedExpr(zed.NewContext(), c.path).Eval(expr.NewContext(), v)
+				if !c.in && f.IsNull() && zed.TypeUnder(f.Type()) == zed.TypeBool {
+					hit = true
+				}
+				if c.in && !f.IsError() && holdsNullBool(f) {
+					hit = true
+				}
+			}
+			all = all && hit
+		}
+		if all {
+			return "null-equals-false-literal"
+		}
+	}
+	return ""
 }
